@@ -1479,6 +1479,16 @@ class MultiTenantPool(FixedPool):
         client_id = worker.current_client_id
         assert client_id is not None
         tenant_schema = worker.get_tenant_schema(client_id)
+        if (
+            tenant_schema is not None
+            and client_id in worker.get_invalidation()
+        ):
+            # The client is still in our cache only because its invalidation
+            # (drop_tenant() or an eviction whose sync has failed) hasn't been
+            # acknowledged yet. The worker drops the invalidated clients
+            # before it applies the state of this call - or has done so
+            # already - so it must be sent the complete state again.
+            tenant_schema = None
         if tenant_schema is None:
             # make room for the new client in this worker
             worker.maybe_invalidate_last()
@@ -1590,10 +1600,14 @@ class MultiTenantPool(FixedPool):
             assert isinstance(worker, MultiTenantWorker)
             assert client_id is not None
             tenant_schema = worker.get_tenant_schema(client_id)
-            if tenant_schema is None:
+            if (
+                tenant_schema is None
+                or client_id in worker.get_invalidation()
+            ):
                 # Just pass state + root user schema if this is a new client in
                 # the worker; we don't want to initialize the client as we
-                # don't have enough information to do so.
+                # don't have enough information to do so. Same if the client
+                # is pending invalidation: the worker may have dropped it.
                 dbname = client_id = None
             else:
                 worker_db = tenant_schema.dbs.get(dbname)
